@@ -323,6 +323,7 @@ type env struct {
 	scen      string
 	panicked  atomic.Bool
 	async     bool // requests may be held in flight: no call may wait forever
+	stuck     bool // a server lock was left held: nothing more is sent to this server
 }
 
 func (e *env) gate(op string, leaf int) {
@@ -617,14 +618,29 @@ func clampU32(v uint32) int {
 // snapshot emits a "snap" event. It must only be called when no
 // compound is executing inside the server's locks.
 func (e *env) snapshot(why string) {
-	ev := common.Ev{"ev": "snap", "why": why}
+	ev := common.Ev{"ev": "snap", "why": why, "lockleak": false}
 	func() {
 		defer func() {
 			if r := recover(); r != nil {
 				ev["hookpanic"] = fmt.Sprint(r)
 			}
 		}()
-		ev["lk"] = nfsserver.VerifNFS41LocksFree(e.prog)
+		// Snapshots are taken when no request executes inside the server:
+		// every request has returned, is parked inside a leaf's
+		// VirtualRead/VirtualWrite (the server holds none of its locks
+		// while it calls the leaf) or waits for the result of the request
+		// it duplicates (on a channel, after the server's locks were
+		// dropped). So every lock of the server and of the pool must be
+		// free. If one is not, the state hooks (which take the locks)
+		// would block: the snapshot is logged without state and nothing
+		// more is sent to this server.
+		free := nfsserver.VerifNFS41LocksFree(e.prog) && e.pool.VerifLockProbeIsFree()
+		ev["lk"] = free
+		if !free {
+			ev["lockleak"] = true
+			e.stuck = true
+			return
+		}
 		s, ok := nfsserver.VerifNFS41State(e.prog)
 		if !ok {
 			panic("not an NFSv4.1 program")
